@@ -148,7 +148,12 @@ func (v *Verifier) getChains(ctx context.Context, q ChainQuery) ([][]*x509.Certi
 
 	cachedChains, ok := v.cacheGet(key, "chains")
 	if ok {
-		return cachedChains.([][]*x509.Certificate), nil
+		// The cache key does not include the requested validity. Only serve
+		// cached chains that cover it; otherwise fall back to the engine.
+		chains := coveringChains(cachedChains.([][]*x509.Certificate), q.Validity)
+		if len(chains) > 0 {
+			return chains, nil
+		}
 	}
 
 	chains, err := v.Engine.GetChains(ctx, q, Server(v.BoundServer))
@@ -159,6 +164,22 @@ func (v *Verifier) getChains(ctx context.Context, q ChainQuery) ([][]*x509.Certi
 		v.cacheAdd(key, chains, v.cacheExpiration(chains))
 	}
 	return chains, nil
+}
+
+// coveringChains returns the chains whose AS certificate covers the validity
+// period. If the validity period is not set, all chains are returned.
+func coveringChains(chains [][]*x509.Certificate, validity cppki.Validity) [][]*x509.Certificate {
+	if validity.IsZero() {
+		return chains
+	}
+	covering := make([][]*x509.Certificate, 0, len(chains))
+	for _, chain := range chains {
+		certValidity := cppki.Validity{NotBefore: chain[0].NotBefore, NotAfter: chain[0].NotAfter}
+		if certValidity.Covers(validity) {
+			covering = append(covering, chain)
+		}
+	}
+	return covering
 }
 
 func (v *Verifier) cacheGet(key string, reqType string) (any, bool) {
